@@ -29,7 +29,7 @@ vars == <<mem, ro, impl, l>>
 
 OpOf(e) == [op |-> e.op, loc |-> e.loc, id |-> e.id, rid |-> e.rid, val |-> Norm(e.val),
             inh |-> e.inh, wk |-> e.wk, rk |-> e.rk, now |-> e.now, flag |-> e.flag,
-            names |-> Rng(e.names), hooked |-> impl.via = "system"]
+            names |-> Rng(e.names), hooked |-> impl.via # ""]
 
 NormFound(f) == {[id |-> f[i].id, bss |-> NormBs(f[i].bss), body |-> Norm(f[i].body)] : i \in DOMAIN f}
 NoBody(F) == {[id |-> x.id, bss |-> x.bss] : x \in F}
@@ -97,7 +97,7 @@ Explained(e) == {o \in RespExplained(e) : DiskOk(o.mem, e)}
 \* sys.System: with existence checking on, a location that was never created
 \* answers not-found to every request and is not created by it; CreateLocation
 \* stores the marker property (its timestamp value is taken from the trace).
-Uncreated(e) == impl.check /\ e.op # "CreateLocation"
+Uncreated(e) == impl.check /\ e.op \notin {"CreateLocation", "BadRequest"}
                 /\ PropId("", "createdAt") \notin DOMAIN mem[e.loc]
 SysOutcomes(e) ==
   LET disk == [a \in DOMAIN mem |-> Rng(e.disk[a])]
